@@ -164,10 +164,12 @@ class Runnable(ABC):  # pylint: disable=too-many-instance-attributes
         """
         Wake up, if do was sleeping, and do things right away.
         """
-        if self.__interrupt is None:
+        # read the event once: run()'s finally block sets it to None from the service thread
+        interrupt = self.__interrupt
+        if interrupt is None:
             log.warning("not running, wake ignored")
             return
-        self.__interrupt.set()
+        interrupt.set()
 
     def start(self, *, daemon=True, **kwargs):
         """
